@@ -47,7 +47,9 @@ class Contract:
                  returns=None, invariants=None, bv=None, by_contract=False, props=(),
                  setup=None, modifies=None, call_requires=None, result_maker=None, args=None,
                  timeout_ms=None, max_paths=None, method_of=None, build=None, fuel=None, note="",
-                 gen=None, nl_uf=False, tiers=("quick", "thorough"), returns_expr=None, group_axioms=False):
+                 gen=None, nl_uf=False, tiers=("quick", "thorough"), returns_expr=None, group_axioms=False,
+                 int_bytes_expand=8):
+        self.int_bytes_expand = int_bytes_expand  # int.from_bytes of an opaque string of at most this many bytes is tied to its bytes
         self.group_axioms = group_axioms          # add the commutative-monoid axioms of the abstract point group (C03.4)
         self.returns_expr = returns_expr          # call sites use this spec term as the result (must be one of the ensures)
         self.tiers = tuple(tiers)                 # tiers in which the deductive job runs (bounded companion: always)
@@ -359,6 +361,7 @@ def verify_contract(c, reg=REG, timeout_ms=10000, max_paths=None):
         m = Machine(p, reg, bv=c.bv)
         m.top_fn = fn
         m.nl_uf = getattr(c, "nl_uf", False)
+        m.int_bytes_expand = getattr(c, "int_bytes_expand", 8)
         pid = [None]
         seen = {}
 
